@@ -259,6 +259,14 @@ impl ProofVerifier {
                     self.accept_legacy_revocation,
                 )?;
                 tau_list.extend_from_slice(&sub_tau_list.as_slice()?);
+            } else if credential.rev_reg.is_some() {
+                // The verifier supplied a registry state for this sub-proof: revocation
+                // must be checked, so a missing non-revocation part (or missing keys to
+                // check it with) cannot be skipped silently.
+                return Err(err_msg!(
+                    ProofRejected,
+                    "Non-revocation proof or revocation keys missing for a sub-proof with a revocation registry"
+                ));
             };
 
             // Check that `m_hat`s of all common attributes are same. Also `m_hat` for each common attribute must be present in each sub proof
